@@ -50,6 +50,9 @@ func main() {
 	}
 	sitesPath = os.Getenv("SIM_SITES")
 	testdataDir = os.Getenv("SIM_TESTDATA")
+	if os.Getenv("SIM_COLD") == "" {
+		warmUp()
+	}
 	switch os.Args[1] {
 	case "run":
 		cmdRun(os.Args[2:])
@@ -57,6 +60,8 @@ func main() {
 		cmdReplay(os.Args[2:])
 	case "dump":
 		cmdDump(os.Args[2:])
+	case "oneshot":
+		cmdOneshot()
 	case "gen":
 		cmdGen(os.Args[2:])
 	case "try":
@@ -340,11 +345,109 @@ func cmdTry(args []string) {
 			p.Root = path
 		}
 	}
-	res, d, _ := execute(&p, Opts{FixedSeed: true}, refEnv, nil, 1, nil)
+	env := refEnv
+	env.MapPolicy = atoiDef(os.Getenv("SIM_MAP_POLICY"), env.MapPolicy)
+	res, d, dec := execute(&p, Opts{FixedSeed: true}, env, nil, 1, nil)
+	for _, x := range dec {
+		if x.C != 0 {
+			fmt.Printf("decision %+v\n", x)
+		}
+	}
 	res.JSONIndent = ""
 	b, _ := json.MarshalIndent(res, "", " ")
 	fmt.Println(string(b))
 	for _, e := range d.Log {
 		fmt.Printf("fs: %+v\n", e)
 	}
+}
+
+// warmUp parses one fixed project before anything else, so that every case of
+// every process (batch worker, replay, fresh-process comparison) starts from
+// the same process state: sync.Once-guarded tables built, lazily initialised
+// package state populated. Cold-start behaviour is exercised separately, by
+// cases that run in a fresh process with SIM_COLD set.
+func warmUp() {
+	p := Project{Root: "/sim/warm/main.jst", Cwd: "/sim/cwd"}
+	p.set(p.Root, []byte(warmDoc))
+	for _, o := range []Opts{{FixedSeed: true}, {}} {
+		r, _, _ := execute(&p, o, refEnv, nil, 1, nil)
+		if !r.Accepted {
+			fmt.Fprintln(os.Stderr, "worker: warm-up document rejected:", r.Msg, r.Panic)
+			// not fatal: a changed tree may reject it; the state is still as warm as it gets
+		}
+	}
+	traceAcc, traceExecs = 1469598103934665603, 0
+}
+
+const warmDoc = `JSIGHT 0.3
+
+INFO
+  Title "Warm"
+  Version 1.0
+
+SERVER @s
+  BaseUrl "https://example.com"
+
+TAG @tg
+
+ENUM @e
+  ["a", "b"]
+
+TYPE @r regex
+  /ab+/
+
+TYPE @t
+  {
+    "id": 1, // {min: 0}
+    "k": "a", // {enum: @e}
+    "r": @r,
+    "arr": [1, 2]
+  }
+
+MACRO @m
+(
+  404 any
+)
+
+URL /x/{id}
+  Path
+    {
+      "id": 1
+    }
+  GET // get
+    Tags @tg
+    Query "a=1"
+      {
+        "a": 1
+      }
+    200 @t
+    PASTE @m
+  POST
+    Request
+      Headers
+        {
+          "H": "v"
+        }
+      Body
+        { // {allOf: "@t"}
+          "extra": true
+        }
+    201 [@t]
+
+URL /rpc
+  Protocol json-rpc-2.0
+  Method foo
+    Params
+      {
+        "p": 1
+      }
+    Result
+      1
+`
+
+func atoiDef(s string, d int) int {
+	if s == "" {
+		return d
+	}
+	return atoi(s)
 }
